@@ -103,10 +103,12 @@ type SState struct {
 	Domain       map[string]int                       `json:"domain,omitempty"`        // "task|target|collection|shard" -> index into the pchannel log where the replication domain of that stream starts
 	PosRace      map[string]bool                      `json:"pos_race,omitempty"`      // "task/collection" -> two read-modify-write cycles on that checkpoint record overlapped
 	TimeSkipped  map[string][]int64                   `json:"time_skipped,omitempty"`  // domain key -> tags dropped by a resume through the re-stamped checkpoint time
+	Overtaken    map[string][]int64                   `json:"overtaken,omitempty"`     // domain key -> tags whose forwarded pack was overtaken by the checkpoint of their source channel
 	Rejected     []SRejRec                            `json:"rejected,omitempty"`      // downstream write rejections attributed to a task
 	Down         map[int]bool                         `json:"down,omitempty"`          // downstreams that currently reject every write
 	BadPack      map[string]bool                      `json:"bad_pack,omitempty"`      // packs (by call key) the downstream refuses on every attempt
 	StaleAck     map[string]bool                      `json:"stale_ack,omitempty"`     // "target|collection|shard" -> a pack of an earlier registration was acknowledged after the stream had been registered again
+	Forwarded    map[string][][2]int                  `json:"forwarded,omitempty"`     // "collection|source pchannel" -> (start, end] message-id ranges of packs that took the forward path (hook H15)
 	MsgCalls     int                                  `json:"msg_calls"`               // running number of drop-message store calls
 	ConnCalls    int                                  `json:"conn_calls"`              // running number of message-queue connection checks
 	Overlap      map[string]bool                      `json:"overlap,omitempty"`       // tasks whose record was being updated by a background transition (failure pause) while an operator request on the same task was in flight
@@ -246,6 +248,10 @@ func RunRigS(t *testing.T, plan *Plan) {
 		b, _ := json.Marshal(sc)
 		plan.Script = b
 	}
+	if sc.Knobs.PChMode < 0 || sc.Knobs.PChMode >= len(pchNumbering) {
+		sc.Knobs.PChMode = 0
+	}
+	pchMode = sc.Knobs.PChMode
 	if msg := validateS(sc); msg != "" {
 		res := &Result{Status: "invalid_script", Harness: msg, Plan: plan}
 		WriteResult(res)
@@ -367,10 +373,16 @@ func (r *RigS) loadState() {
 	if st.PosRace == nil {
 		st.PosRace = map[string]bool{}
 	}
+	if st.Overtaken == nil {
+		st.Overtaken = map[string][]int64{}
+	}
 	if st.TimeSkipped == nil {
 		st.TimeSkipped = map[string][]int64{}
 	}
 	st.Down = map[int]bool{} // a restart finds the downstream healthy again
+	if st.Forwarded == nil {
+		st.Forwarded = map[string][][2]int{}
+	}
 	if st.StaleAck == nil {
 		st.StaleAck = map[string]bool{}
 	}
@@ -490,8 +502,64 @@ func (r *RigS) build() {
 		}
 	}
 	cdcwriter.VerifKafkaStub = true
+	// Non-parking observation of the reader's pack pipeline: a pack that a stream goroutine enqueues although the CURRENT
+	// registration of that stream has not been given a source pack with that end position stems from an earlier
+	// registration (the goroutine outlived the pause of its task).
+	lastLocked := map[string]int{}
+	reader.VerifNote = func(point, ch string, a uint64, ref any) {
+		if p, ok := ref.(*msgstream.MsgPack); ok && point == "pack:locked" && len(p.EndPositions) > 0 {
+			r.mu.Lock()
+			lastLocked[ch] = MsgIDToSeq(p.EndPositions[0].MsgID)
+			r.mu.Unlock()
+		}
+		if p, ok := ref.(*msgstream.MsgPack); ok && point == "pack:forward" && len(p.EndPositions) > 0 {
+			// the pack leaves its own handler: it travels on another downstream channel than the later packs of its stream
+			from := -1
+			if len(p.StartPositions) > 0 {
+				from = MsgIDToSeq(p.StartPositions[0].MsgID)
+			}
+			k := fmt.Sprintf("%d|%s", int64(a), ch)
+			r.mu.Lock()
+			r.st.Forwarded[k] = append(r.st.Forwarded[k], [2]int{from, MsgIDToSeq(p.EndPositions[0].MsgID)})
+			r.mu.Unlock()
+			r.s.Probe("pack_forwarded")
+		}
+	}
+	reader.VerifYield = func(point, ch string, coll int64) {
+		if point != "pack:enqueue" || coll <= 0 {
+			return
+		}
+		r.mu.Lock()
+		endSeq, ok := lastLocked[ch]
+		r.mu.Unlock()
+		if !ok {
+			return
+		}
+		r.noteEnqueue(ch, coll, endSeq)
+	}
+	if os.Getenv("VERIF_PACKTRACE") != "" {
+		// debugging aid (changes the event log): one line per pack the reader computes, with the stream's collection
+		baseYield, baseNote := reader.VerifYield, reader.VerifNote
+		reader.VerifYield = func(point, ch string, coll int64) {
+			baseYield(point, ch, coll)
+			if point == "pack:computed" || point == "pack:enqueue" {
+				s.logf("    ~ %s ch=%s coll=%d t=%d", point, ch, coll, s.Now().Milliseconds())
+			}
+		}
+		reader.VerifNote = func(point, ch string, a uint64, ref any) {
+			baseNote(point, ch, a, ref)
+			if p, ok := ref.(*msgstream.MsgPack); ok && point == "pack:locked" {
+				seq := -1
+				if len(p.EndPositions) > 0 {
+					seq = MsgIDToSeq(p.EndPositions[0].MsgID)
+				}
+				s.logf("    ~ pack:locked ch=%s tick=%d end_seq=%d msgs=%d [%d,%d]", ch, a, seq, len(p.Msgs), p.BeginTs, p.EndTs)
+			}
+		}
+	}
 	server.VerifOrderedPositions = true
 	doneCalls := map[string]int{}
+	reader.VerifHandlerOrder = SeededHandlerOrder(r.plan.Seed, r.plan.Incarnation)
 	reader.VerifPreferDone = func(site string) bool {
 		// a replayable coin: seed, site and how often the site asked (asked only with the context already cancelled)
 		r.mu.Lock()
@@ -736,13 +804,6 @@ func (r *RigS) noteStoreWrite(key string) {
 			r.s.Probe("background_transition_overlaps_request")
 		}
 	}
-	if id != "" && (strings.Contains(key, ":put:") || strings.Contains(key, "exec:INSERT INTO task_info:")) && r.opBusy && r.st.InFlight >= 0 && r.sc.Ops[r.st.InFlight].Task != id && r.sc.Ops[r.st.InFlight].Task != "" {
-		// the record of another task is rewritten (a pause triggered by a failure) while a request is in flight: the two
-		// transitions share the per-target resources and are not serialised
-		r.st.Overlap[id] = true
-		r.st.Overlap[r.sc.Ops[r.st.InFlight].Task] = true
-		r.s.Probe("background_transition_overlaps_request")
-	}
 	switch {
 	case strings.Contains(key, ":txn:") && id != "", strings.Contains(key, "exec:DELETE FROM task_info:"):
 		if id == "" {
@@ -759,6 +820,24 @@ func (r *RigS) noteStoreWrite(key string) {
 				delete(r.deletedAt, id)
 			}
 		}
+	}
+}
+
+// noteOverlap: the record of another task is being rewritten (a pause triggered by a failure - whether or not the store
+// accepts the write) while a request is in flight: the two transitions share the per-downstream resources and are not serialised.
+func (r *RigS) noteOverlap(key string) {
+	i := strings.Index(key, "task_info/")
+	if i < 0 || !(strings.Contains(key, ":put:") || strings.Contains(key, "exec:INSERT INTO task_info:")) {
+		return
+	}
+	id := key[i+len("task_info/"):]
+	if j := strings.IndexAny(id, ",# "); j >= 0 {
+		id = id[:j]
+	}
+	if id != "" && r.opBusy && r.st.InFlight >= 0 && r.sc.Ops[r.st.InFlight].Task != id && r.sc.Ops[r.st.InFlight].Task != "" {
+		r.st.Overlap[id] = true
+		r.st.Overlap[r.sc.Ops[r.st.InFlight].Task] = true
+		r.s.Probe("background_transition_overlaps_request")
 	}
 }
 
@@ -881,6 +960,52 @@ func (r *RigS) onAckData(tgt int, channel string, endSeq int, names []string) {
 	}
 }
 
+func (r *RigS) noteEnqueue(ch string, coll int64, endSeq int) {
+	tgt, shard := -1, -1
+	for i := range r.sdk {
+		if strings.HasPrefix(ch, r.sdk[i].TgtPrefix) {
+			tgt = i
+		}
+	}
+	if i := strings.LastIndex(ch, "_"); i >= 0 {
+		fmt.Sscanf(ch[i+1:], "%d", &shard)
+	}
+	if tgt < 0 || shard < 0 {
+		return
+	}
+	max := -1
+	for _, st := range r.mq.All {
+		if st.Coll != coll || st.Shard != shard || st.PCh == replicateChan || st.Closed || r.targetOfStream(st) != tgt {
+			continue
+		}
+		for _, dp := range st.Delivered {
+			if dp.EndSeq > max {
+				max = dp.EndSeq
+			}
+		}
+	}
+	if max >= endSeq {
+		return
+	}
+	// resumed since? (a pack that merely trails a pause is dropped by the write loop: "not running task")
+	owner := r.ownerOf(tgt, coll)
+	for _, rec := range r.st.OpLog {
+		if rec.K == "resume" && rec.Task == owner && rec.Inc == r.plan.Incarnation {
+			r.mu.Lock()
+			r.st.StaleAck[fmt.Sprintf("%d|%d|%d", tgt, coll, shard)] = true
+			r.mu.Unlock()
+			r.s.Probe("stale_pack_enqueued_after_resume")
+			return
+		}
+	}
+	if r.opBusy && r.st.InFlight >= 0 && r.sc.Ops[r.st.InFlight].K == "resume" && r.sc.Ops[r.st.InFlight].Task == owner {
+		r.mu.Lock()
+		r.st.StaleAck[fmt.Sprintf("%d|%d|%d", tgt, coll, shard)] = true
+		r.mu.Unlock()
+		r.s.Probe("stale_pack_enqueued_after_resume")
+	}
+}
+
 func (r *RigS) isReloaded() bool { r.mu.Lock(); defer r.mu.Unlock(); return r.reloaded }
 
 func b2s(m map[string][]byte) map[string]string {
@@ -909,7 +1034,8 @@ func trunc(s string, n int) string {
 func (r *RigS) faultsFor(c *Call) []string {
 	switch c.Kind {
 	case "store":
-		if !r.isReloaded() && c.Seq == 0 && strings.Contains(c.Key, "task_info") {
+		listing := strings.HasSuffix(c.Key, "task_info/") || (strings.Contains(c.Key, "query:SELECT task_info_value FROM task_info") && !strings.Contains(c.Key, ":task_info:"))
+		if !r.isReloaded() && strings.Contains(c.Key, "task_info") && (c.Seq == 0 || listing) {
 			// the listing ReloadTask starts with: its failure is a start-up failure (panic by design)
 			return nil
 		}
@@ -979,6 +1105,9 @@ func (r *RigS) run() {
 		if o.Fault != "" && r.opBusy {
 			r.opFaults++
 		}
+		if c.Kind == "store" {
+			r.noteOverlap(c.Key)
+		}
 		if c.Kind == "store" && o.Fault == "" {
 			r.noteStoreWrite(c.Key)
 		}
@@ -1045,7 +1174,7 @@ func (r *RigS) run() {
 				as = append(as, Action{Key: "mq:" + stt.VCh, Weight: 4, Run: func() {
 					dp := stt.Deliver()
 					if dp != nil {
-						s.Side("mq delivered pack to %s end=%d msgs=%d", stt.VCh, dp.EndSeq, len(dp.Entries))
+						s.Side("mq delivered pack to %s end=%d msgs=%d", stt.Key(), dp.EndSeq, len(dp.Entries))
 						if stt.PCh != replicateChan {
 							if tgt := r.targetOfStream(stt); tgt >= 0 {
 								r.mu.Lock()
